@@ -103,7 +103,7 @@ func genV(rng *vk.Rand) (*big.Int, string) {
 
 func main() {
 	r := vk.Start("C36")
-	r.Rule("one evaluation = (value v, percentage p): v from {0..2, small, 10^k, 2^k(-1), eGLD-scale, random up to 2^300}; p from float64 in [0,1]: decimal grids 1e-1..1e-6, uniform, random bit patterns, subnormals, specials (0, 1, smallest subnormal, 0.1, 1/3, ...), 1-k*ulp, neighbours of grid points, powers of 2 and 10, random mantissa/exponent. Non-trivial when v > 0 and 0 < p < 1; distinct = distinct (p class, v class, number of significant decimal digits of p) tuples."+delegationRuleText)
+	r.Rule("one evaluation = (value v, percentage p): v from {0..2, small, 10^k, 2^k(-1), eGLD-scale, random up to 2^300}; p from float64 in [0,1]: decimal grids 1e-1..1e-6, uniform, random bit patterns, subnormals, specials (0, 1, smallest subnormal, 0.1, 1/3, ...), 1-k*ulp, neighbours of grid points, powers of 2 and 10, random mantissa/exponent. Non-trivial when v > 0 and 0 < p < 1; distinct = distinct (p class, v class, number of significant decimal digits of p) tuples." + delegationRuleText)
 	r.Assume(
 		"D(p) is the shortest decimal string that parses back to p (strconv 'e' format, checked with ParseFloat), evaluated exactly with big.Rat; this is what 'exact percentage' means for a float64 input (GetIntTrimmedPercentageOfValue(10^36, 0.1) == 10^35)",
 		"percentages outside [0,1], NaN and negative values are outside the property's domain",
